@@ -45,6 +45,8 @@ impl Prop for C18 {
         let long_runs = (proptest::sample::select(vec![crate::bits::BitsKind::Da1, crate::bits::BitsKind::Da0, crate::bits::BitsKind::Narrow, crate::bits::BitsKind::Wide]),
             prop_oneof![
                 2 => (20_000usize..=max_bits, 12u8..=15, 12u8..=15, any::<u64>()).prop_map(|(n, zero_lg, one_lg, seed)| crate::bitgen::BitContent::Runs { n, zero_lg, one_lg, seed }),
+                3 => (prop_oneof![Just(9000u32), Just(8192), Just(8200), 8000u32..12_000], prop_oneof![Just(0u32), 8000u32..12_000], 1u16..=3, prop_oneof![Just(0u8), Just(3)], any::<u64>())
+                    .prop_map(|(a, d, periods, jitter, seed)| crate::bitgen::BitContent::PeriodicRuns { one_len: a, zero_len: if d == 0 { a } else { d }, periods, jitter, seed }),
                 1 => (140_000usize..=max_bits.max(140_001), prop_oneof![Just(16u32), Just(64), Just(400)], any::<u64>()).prop_map(|(n, num, seed)| crate::bitgen::BitContent::Density { n, num, seed }),
                 1 => (140_000usize..=max_bits.max(140_001), prop_oneof![Just(65520u32), Just(65472), Just(65136)], any::<u64>()).prop_map(|(n, num, seed)| crate::bitgen::BitContent::Density { n, num, seed }),
             ], any::<u64>())
@@ -76,7 +78,7 @@ impl Prop for C18 {
         ctx.label(&format!("threads={}", match c.threads { 2..=3 => "2-3", 4..=7 => "4-7", _ => "8-16" }));
         let n = v.n();
         ctx.nontrivial = c.threads >= 4 && n > 4096;
-        let o = AnyOpts { unchecked: false, budget: c.budget as usize, iterators: n <= 20_000 };
+        let o = AnyOpts { full_select_upto: 40_000, ..AnyOpts::new(false, c.budget as usize, n <= 20_000) };
         let base_seed = c.base.plan_seed();
         let seed_of = |t: usize, r: usize| mix(base_seed, (t * 1000 + r) as u64);
         let shared_seed = mix(base_seed, 0xABCDEF);
